@@ -727,6 +727,26 @@ func (c *cmp) compareDataset(n *Node, ds *hdf5.Dataset, path string) {
 	}
 	t := c.ix.ResolveType(src.Type)
 
+	// a full read materialises the logical extent (C07's open finding): datasets declared in the gigabytes are not read here
+	if info != nil && info.Dataspace != nil && info.Datatype != nil {
+		n := uint64(info.Datatype.Size)
+		if n == 0 {
+			n = 1
+		}
+		for _, x := range info.Dataspace.Dimensions {
+			if x != 0 && n > (256<<20)/x {
+				c.skipAt(path, "logical-extent-above-256MiB")
+				nattr := c.compareAttrs(src, ds, path)
+				oc.Nontrivial = nattr > 0
+				c.res.objs = append(c.res.objs, oc)
+				return
+			}
+			if x != 0 {
+				n *= x
+			}
+		}
+	}
+
 	// Read
 	{
 		var vals []float64
